@@ -89,9 +89,15 @@ def deriveOpIdU (mu path : Str) : Str := sanMethod (stripC '/' (mu ++ '_' :: pat
 /-- The fallback operation id of a raw method key. -/
 def deriveOpId (u : UInfo) (method path : Str) : Str := deriveOpIdU (u.upperS method) path
 
+/-- `node_op.get("operationId")` as a truth value: the declared id when the member is present and not the empty string
+    (F44 repaired: `operationId: ""` is treated like an absent id). -/
+def declaredId : Option Str → Option Str
+  | some id => if id.isEmpty then none else some id
+  | none => none
+
 /-- parser.py:83-91 -/
 def chooseOpId (s : Naming) (mu path : Str) (declared : Option Str) : Str :=
-  match s, declared with
+  match s, declaredId declared with
   | .path, _ => deriveOpIdU mu path
   | .clean, some id => cleanOpId id mu path
   | .operationId, some id => id
